@@ -2112,7 +2112,10 @@ class TargetRegistry:
 
         registered = False
         for cur_type, sub_tree in list(_type_tree.items()):
-            if issubclass(cur_type, new_type):
+            if cur_type is new_type:
+                # registered again: it already has its place in the tree
+                registered = True
+            elif issubclass(cur_type, new_type):
                 sub_tree = _type_tree.pop(cur_type)  # mutation for recursion brevity
                 try:
                     _type_tree[new_type][cur_type] = sub_tree
